@@ -129,7 +129,7 @@ def engine_quirk(ex, case, ref=None):
         # a frame materialised from an empty result carries Null-typed columns (c); the library then rightly refuses
         # e.g. a Null-typed filter predicate
         return "polars_empty_frame_null_dtype"
-    if exc_name(ex) in ("InvalidOperationError", "SchemaError", "ComputeError") and re.search(r"[Ll]ist\(", msg) and any(
+    if exc_name(ex) in ("InvalidOperationError", "SchemaError", "ComputeError") and re.search(r"[Ll]ist(\(| type)", msg) and any(
             s.get("verb") == "summarize" for s in case.get("steps", [])):
         return "polars_agg_returns_list"  # (j): a later operation trips over the list an aggregation returned
     if exc_name(ex) == "OperationalError" and "parser stack overflow" in msg:
